@@ -598,7 +598,7 @@ func runOne4(c *CfgCase, h handler.Handler4, wire []byte, i int) (v *core.Violat
 		// the DHCPv4 reply object holds bytes only: what "the same options" means for a name list is
 		// the list that was accepted at start-up, read back with the harness's own decoder
 		if raw, ok := back.Options[119]; ok {
-			if names, dok := gen.DecodeNames(raw); !dok || !sameStrings(names, c.Args) {
+			if names, dok := gen.DecodeNames(raw); !dok || !sameStrings(names, plainNames(c.Args)) {
 				return core.Violate("C19/"+c.Plugin+"/v4/reply-options-change", "args %q accepted by setup; request #%d: the search list in the reply reads back as %q", c.Args, i, names)
 			}
 		}
@@ -670,7 +670,7 @@ func runOne6(c *CfgCase, h handler.Handler6, wire []byte, i int) (v *core.Violat
 				continue
 			}
 			raw := o.ToBytes()
-			if names, dok := gen.DecodeNames(raw); !dok || !sameStrings(names, c.Args) {
+			if names, dok := gen.DecodeNames(raw); !dok || !sameStrings(names, plainNames(c.Args)) {
 				return core.Violate("C19/"+c.Plugin+"/v6/reply-options-change", "args %q accepted by setup; request #%d: the search list in the reply reads back as %q", c.Args, i, names)
 			}
 		}
